@@ -41,3 +41,51 @@ Proof.
     constructor; [split; [assumption|vm_compute; reflexivity]|]. constructor.
   - vm_compute. split; reflexivity.
 Qed.
+
+(* non-vacuity of the theorems over every option table (Sys/C19ProofsE.v): a job with a page selection in the middle, an overlay with an
+   option, an attachment whose file follows an option, a copy-attachments-from block, page labels and an empty underlay list meets
+   xj_wf_job (positional spelling, B.pdf in the working directory), and its denotation is the expected call list *)
+Example C19_xj_wf_job_example :
+  exists e1 e2 e3, In e1 argv_table /\ In e2 argv_table /\ In e3 argv_table /\
+  let j := [XjBase (IIn B"A.pdf"); XjOverlay [mk_xj_uospec B"O.pdf" [(e1, B"1")]]; XjBase (IOut B"out.pdf");
+            XjPages [mk_pgspec B"." None (Some B"1-2"); mk_pgspec B"B.pdf" None None];
+            XjAddAtt [[XjOpt e2 B"k"; XjFile B"att.txt"]]; XjCopyAtt [[XjFile B"F.pdf"; XjOpt e3 B"p-"]];
+            XjLabels [B"1:r"]; XjUnderlay []] in
+  xj_wf_job argv_table [B"B.pdf"] false j /\
+  xj_denote_job j =
+    ([CCall B"c_main" B"inputFile" [B"A.pdf"];
+      CCall B"c_main" B"overlay" []; CCall B"c_uo" B"file" [B"O.pdf"]; CCall B"c_uo" B"to" [B"1"]; CCall B"c_uo" B"endUnderlayOverlay" [];
+      CCall B"c_main" B"outputFile" [B"out.pdf"];
+      CCall B"c_main" B"pages" []; CCall B"c_pages" B"file" [B"."]; CCall B"c_pages" B"range" [B"1-2"]; CCall B"c_pages" B"file" [B"B.pdf"];
+      CCall B"c_pages" B"endPages" [];
+      CCall B"c_main" B"addAttachment" []; CCall B"c_att" B"key" [B"k"]; CCall B"c_att" B"file" [B"att.txt"]; CCall B"c_att" B"endAddAttachment" [];
+      CCall B"c_main" B"copyAttachmentsFrom" []; CCall B"c_copy_att" B"file" [B"F.pdf"]; CCall B"c_copy_att" B"prefix" [B"p-"];
+      CCall B"c_copy_att" B"endCopyAttachmentsFrom" [];
+      CCall B"c_main" B"setPageLabels" [B"1:r"];
+      CCall B"c_main" B"checkConfiguration" []], true) /\
+  xj_render_argv false j =
+    [B"A.pdf"; B"--overlay"; B"O.pdf"; B"--to=1"; B"--"; B"out.pdf"; B"--pages"; B"."; B"1-2"; B"B.pdf"; B"--";
+     B"--add-attachment"; B"--key=k"; B"att.txt"; B"--"; B"--copy-attachments-from"; B"F.pdf"; B"--prefix=p-"; B"--";
+     B"--set-page-labels"; B"1:r"; B"--"].
+Proof.
+  exists (mk_aentry B"underlay/overlay" B"to" KParam [] (TConfig B"c_uo" B"to")).
+  exists (mk_aentry B"attachment" B"key" KParam [] (TConfig B"c_att" B"key")).
+  exists (mk_aentry B"copy-attachment" B"prefix" KParam [] (TConfig B"c_copy_att" B"prefix")).
+  assert (H1 : In (mk_aentry B"underlay/overlay" B"to" KParam [] (TConfig B"c_uo" B"to")) argv_table) by (apply in_by_compute; vm_compute; reflexivity).
+  assert (H2 : In (mk_aentry B"attachment" B"key" KParam [] (TConfig B"c_att" B"key")) argv_table) by (apply in_by_compute; vm_compute; reflexivity).
+  assert (H3 : In (mk_aentry B"copy-attachment" B"prefix" KParam [] (TConfig B"c_copy_att" B"prefix")) argv_table) by (apply in_by_compute; vm_compute; reflexivity).
+  split; [exact H1|]. split; [exact H2|]. split; [exact H3|]. cbv zeta.
+  split; [|split; vm_compute; reflexivity].
+  split; [|vm_compute; reflexivity].
+  constructor; [exact I|].
+  constructor.
+  { cbn [xj_wf_item]. constructor; [|constructor]. split; [reflexivity|]. constructor; [|constructor]. cbn [fst]. split; [exact H1|]. split; vm_compute; reflexivity. }
+  constructor; [exact I|].
+  constructor; [vm_compute; reflexivity|].
+  constructor.
+  { cbn [xj_wf_item]. constructor; [|constructor]. constructor; [split; [exact H2|vm_compute; reflexivity]|]. constructor; [reflexivity|constructor]. }
+  constructor.
+  { cbn [xj_wf_item]. constructor; [|constructor]. constructor; [reflexivity|]. constructor; [split; [exact H3|vm_compute; reflexivity]|constructor]. }
+  constructor; [cbn [xj_wf_item]; constructor; [reflexivity|constructor]|].
+  constructor; [cbn [xj_wf_item]; constructor|]. constructor.
+Qed.
